@@ -3,13 +3,21 @@
 Confirms (scratch copy of /repo + patch): suite passes, demo fails with the change and passes without; runs the property's
 check (and extras) against the patched copy; stores /verif/seeded/<Cnn>-<k>/{patch.diff, demo.py, meta.json}."""
 import json, os, shutil, subprocess, sys, tempfile
+if sys.argv[1] == '--stored':
+    # re-evaluate a change already stored under /verif/seeded/<Cnn>-<n>
+    pid, k = sys.argv[2].split('-')
+    os.environ['SEED_OFFSET'] = '0'
+    sys.argv = [sys.argv[0], pid, k] + sys.argv[3:]
+    STORED = True
+else:
+    STORED = False
 pid, k = sys.argv[1], sys.argv[2]
 tier = sys.argv[3] if len(sys.argv) > 3 else 'quick'
 extra = sys.argv[4:]
 wt = f'/tmp/wt_{pid}'
 src = {n: f'{wt}/seeded_{k}{s}' for n, s in (('patch', '.diff'), ('demo', '_demo.py'), ('meta', '_meta.txt'))}
 dst = f"/verif/seeded/{pid}-{int(k) + int(os.environ.get('SEED_OFFSET', 0))}"
-if not os.path.exists(src['patch']) and os.path.exists(f'{dst}/patch.diff'):
+if STORED:
     src = {'patch': f'{dst}/patch.diff', 'demo': f'{dst}/demo.py', 'meta': None}
 d = tempfile.mkdtemp(prefix='seed_', dir='/tmp')
 try:
